@@ -64,7 +64,10 @@ def menu_entry(k):
         trial, nelec = r.choice(["rhf", "rhf", "uhf"]), r.choice([[2, 2], [1, 1]])
     else:
         trial, nelec = r.choice(["uhf", "ghf", "noci"]), r.choice([[2, 1], [2, 2], [1, 1], [3, 1]])
-    return dict(wt=wt, trial=trial, nelec=nelec, norb=4, nchol=r.choice([1, 2, 3]), dt=STEP_DTS[k % 4], n_exp_terms=r.choice([4, 6]),
+    norb = r.choice([3, 4, 4, 4, 5])
+    if norb == 3:
+        nelec = r.choice([[1, 1], [2, 2]]) if wt == "restricted" else r.choice([[2, 1], [1, 1], [2, 2]])
+    return dict(wt=wt, trial=trial, nelec=nelec, norb=norb, nchol=r.choice([1, 2, 3]), dt=STEP_DTS[k % 4], n_exp_terms=r.choice([4, 6]),
                 n_walkers=r.choice([4, 6]), n_batch=r.choice([1, 2]), kind="ladder" if k % 6 == 5 else ("sampler" if k % 6 == 2 else "history"),
                 n_prop_steps=r.choice([1, 2, 3]), n_ene_blocks=r.choice([1, 2]), n_sr_blocks=r.choice([2, 3]))
 
@@ -78,6 +81,7 @@ def gen_cfg(seed, index, tier):
     m["mix"] = rng.choice([0.0, 0.1, 0.3])
     m["spin_dep"] = m["wt"] == "unrestricted" and rng.random() < 0.6
     m["rdm1_kind"] = rng.choice(["own", "arbitrary"])
+    m["h1_antisym"] = rng.choice([0.0, 0.0, 0.0, 0.05])
     m["jax_seed"] = rng.randrange(1, 2**20)
     m["walker_noise"] = rng.choice([0.05, 0.2, 0.5])
     # the free-projection reference energy is a legal entry of ham_data; a phaseless step must not depend on it
@@ -116,6 +120,7 @@ def build(cfg, dt=None):
 
     spec = {k: cfg[k] for k in ("norb", "nelec", "nchol", "wt", "trial", "n_walkers", "n_batch", "n_exp_terms", "ham_seed", "strength", "mix", "spin_dep")}
     spec["dt"] = cfg["dt"] if dt is None else dt
+    spec["h1_antisym"] = cfg.get("h1_antisym", 0.0)
     s = lab.build_system(spec, harness=False)
     rs = np.random.RandomState((cfg["ham_seed"] + 77) % (2**32 - 1))
     s.ham_data_raw = dict(s.ham_data_raw)
